@@ -99,6 +99,9 @@ def _configs(tier):
         for n in ns:
             out.append(('plain', mode, n, fr, 'forced'))
             out.append(('tsan', mode, n, tr, 'free'))
+            if mode == 'managed':
+                # a first query right after the constructor (mostly before the thread function starts)
+                out.append(('plain', mode, n, fr * 5, 'early'))
     return out
 
 
@@ -112,7 +115,7 @@ def _parse_case(s):
 
 
 def extra_stage(tier, seed, work):
-    res = {'violations': [], 'runs': 0, 'tsan_runs': 0, 'forced_runs': 0, 'samples_while_running': 0,
+    res = {'violations': [], 'runs': 0, 'tsan_runs': 0, 'forced_runs': 0, 'samples_while_running': 0, 'early_queries_false': 0,
            'hook_present': None, 'configs': []}
     exes = {}
     for build, flags in (('plain', []), ('tsan', ['-fsanitize=thread'])):
@@ -158,7 +161,8 @@ def extra_stage(tier, seed, work):
                               kv['rounds_not_one_construction'], kv['rounds'], n, kv['max_constructions']), line)
         else:
             res['samples_while_running'] += int(kv['samples_while_running'])
-            if build == 'plain':
+            res['early_queries_false'] += int(kv.get('early_false', 0))
+            if build == 'plain' and sched != 'early':
                 res['hook_present'] = int(kv['hook_seen']) > 0
             if int(kv['inactive_while_running']):
                 violation('managed-inactive-while-running', cfg,
